@@ -1004,6 +1004,90 @@ theorem multilayer_time_fanout (A : MLA) (t : Rat) (ht : ∀ a ∈ A.layers, a.t
 example : ∀ a ∈ (MLA.new [⟨false, 2, 2, (1, 1), (1, 0), ⟨1, 10⟩, 3⟩, ⟨true, 2, 2, (1, 1), (1, 0), ⟨1, 10⟩, 4⟩]).layers,
     a.t ≤ 5 := by decide +kernel
 
+/-- **Fan-out of the time, whatever the atmosphere's own clock says.**  `evolve_until(t)` never consults `atm._t`: for an
+atmosphere in *any* state — its stored time equal to `t` or not, its layers in step with it or not (a layer reset or
+evolved directly, a finite layer ahead of `t`) — if no infinite layer is ahead of `t`, the call succeeds and leaves
+every layer and the atmosphere at `t`. -/
+theorem multilayer_time_fanout_any_clock (A : MLA) (t : Rat) (ht : ∀ a ∈ A.layers, a.accepts t) :
+    (A.step (.evolve t)).t = t ∧ (∀ a ∈ (A.step (.evolve t)).layers, a.t = t) ∧
+    ∀ s : Rat, (({ A with t := s } : MLA).step (.evolve t)) = A.step (.evolve t) := by
+  have h := evolveAll_accepts t A.layers ht
+  refine ⟨by simp [MLA.step, MLA.evolve, h], ?_, ?_⟩
+  · intro a ha
+    simp only [MLA.step, MLA.evolve, h, List.mem_map] at ha
+    obtain ⟨b, hb, rfl⟩ := ha
+    exact (b.evolve?_accepts t (ht b hb)).2
+  · intro s
+    simp [MLA.step, MLA.evolve, h]
+
+example : ∀ a ∈ ((MLA.new [⟨false, 2, 2, (1, 1), (1, 0), ⟨1, 10⟩, 3⟩, ⟨true, 2, 2, (1, 1), (1, 0), ⟨1, 10⟩, 4⟩]).step
+    (.direct 0 (.evolve 7))).layers, a.accepts 5 := by
+  intro a ha
+  simp [MLA.new, MLA.step, modifyAt, AnyL.new] at ha
+  rcases ha with rfl | rfl
+  · trivial
+  · show (0 : Rat) ≤ 5
+    decide
+
+/-- **Equal target time after a layer was reset behind the atmosphere.**  `atm.evolve_until(T); layer.reset();
+atm.evolve_until(T)`: for an atmosphere in any state (in particular `atm._t = t`), after `reset()` on the layer object
+`j` and `evolve_until(t)` with a time no layer refuses, the atmosphere and every layer are at `t`, and layer `j` is —
+as a state, hence in every screen it shows from then on — the layer freshly built with its seed and the velocity and
+parameters in force, evolved to `t`. -/
+theorem multilayer_equal_time_after_layer_reset (A : MLA) (j : Nat) (a : AnyL) (t : Rat) (h0 : 0 ≤ t)
+    (hj : A.layers[j]? = some a) (ht : ∀ b ∈ A.layers, b.accepts t) :
+    let B := (A.step (.direct j (.reset false))).step (.evolve t)
+    B.t = t ∧ (∀ b ∈ B.layers, b.t = t) ∧
+    B.layers[j]? = some ((AnyL.ofIdent a.ident a.vel a.par).step (.evolve t)) := by
+  intro B
+  have hacc : ∀ b ∈ (A.step (.direct j (.reset false))).layers, b.accepts t := by
+    intro b hb
+    rcases mem_modifyAt _ j A.layers b hb with hb | ⟨c, _, rfl⟩
+    · exact ht b hb
+    · exact AnyL.accepts_of_le _ t (by rw [AnyL.reset_t]; exact h0)
+  have h := multilayer_time_fanout_any_clock (A.step (.direct j (.reset false))) t hacc
+  refine ⟨h.1, h.2.1, ?_⟩
+  have he := evolveAll_accepts t _ hacc
+  show ((A.step (.direct j (.reset false))).evolve t).layers[j]? = _
+  simp only [MLA.evolve, he, List.getElem?_map]
+  show ((modifyAt (·.step (.reset false)) j A.layers)[j]?).map _ = _
+  rw [modifyAt_getElem?, hj, ← AnyL.reset_eq]
+  rfl
+
+example : (0 : Rat) ≤ 2 ∧
+    ((MLA.new [⟨false, 2, 2, (1, 1), (1, 0), ⟨1, 10⟩, 3⟩]).step (.evolve 2)).layers[0]? =
+      some (((MLA.new [⟨false, 2, 2, (1, 1), (1, 0), ⟨1, 10⟩, 3⟩]).step (.evolve 2)).layers.headD (AnyL.new ⟨false, 2, 2, (1, 1), (1, 0), ⟨1, 10⟩, 3⟩)) := by
+  decide +kernel
+
+/-- **Equal target time after new layers were assigned.**  `atm.layers = [Layer(…, seed=sᵢ) …]` on an atmosphere in any
+state, then `evolve_until(t)` (`t ≥ 0`; in particular the time the atmosphere had recorded before): the atmosphere is,
+as a state, the atmosphere freshly built from those layers and evolved to `t`. -/
+theorem multilayer_equal_time_after_new_layers (A : MLA) (specs : List Spec) (t : Rat) (h0 : 0 ≤ t) :
+    (A.setLayers specs).step (.evolve t) = (MLA.new specs).step (.evolve t) := by
+  have hacc : ∀ b ∈ specs.map AnyL.new, b.accepts t := by
+    intro b hb
+    obtain ⟨s, _, rfl⟩ := List.mem_map.1 hb
+    exact AnyL.accepts_of_le _ t (by rw [AnyL.new_t]; exact h0)
+  have he := evolveAll_accepts t _ hacc
+  simp [MLA.step, MLA.evolve, MLA.setLayers, MLA.new, he]
+
+example : (0 : Rat) ≤ 2 := by decide
+
+/-- **A new atmosphere around layers that have already been evolved** (`MultiLayerAtmosphere(atm.layers)`, own clock at
+0): `evolve_until(t)` does to the layers exactly what it does in the old atmosphere — with
+`multilayer_time_fanout_any_clock`: `evolve_until(0)` rewinds every finite layer to time zero. -/
+theorem multilayer_rewrap_evolve (A : MLA) (t : Rat) :
+    (A.rewrap.step (.evolve t)).layers = (A.step (.evolve t)).layers ∧ A.rewrap.layers = A.layers ∧ A.rewrap.t = 0 :=
+  ⟨rfl, rfl, rfl⟩
+
+/-- **Why the stored time must not be used as a shortcut** (the regression class of round 6): an `evolve_until` that
+returns early when `t` equals the atmosphere's stored time leaves a layer that was reset directly at time zero, where
+the code as it is brings it back to `t`. -/
+theorem multilayer_short_circuit_counterexample :
+    let A := ((MLA.new [⟨false, 2, 2, (1, 1), (1, 0), ⟨1, 10⟩, 3⟩]).step (.evolve 2)).step (.direct 0 (.reset false))
+    A.t = 2 ∧ (A.step (.evolve 2)).layers.map AnyL.t = [2] ∧
+    (if (2 : Rat) = A.t then A else A.step (.evolve 2)).layers.map AnyL.t = [0] := by decide +kernel
+
 /-- **D515.** Before the repair `MultiLayerAtmosphere.reset()` rewound the layers but not its own clock: after
 `evolve_until(1); reset()` the atmosphere reports `t = 1` while every layer is at time zero. -/
 theorem multilayer_reset_old_counterexample :
